@@ -26,7 +26,7 @@ from mc.ref import cost as RC
 
 ID = "C02"
 LEVEL = "exploration"
-BUDGET = {"quick": 300, "thorough": 1200}
+BUDGET = {"quick": 300, "thorough": 3600}
 CHUNK = 24
 RULE = (
     "one case = one cost-volume computation (measure, window, subpix, shape, interval/grid, masks, bands) on the real "
